@@ -55,6 +55,7 @@ Definition op_pipe (o : op) : pipe :=
   | OUpdate | OUpdateColumn => PiUpdate
   | ODelete => PiDelete
   | OFind | OFirst => PiQuery
+  | OCreateInBatches _ => PiCreate
   end.
 
 Definition no_hooks_op (o : op) : bool :=
@@ -74,9 +75,19 @@ Definition ev_of (t : ty) (tag : Z) (e : hev) : bool := (snd (fst e) =? ty_id t)
 
 (* position of a phase in the operation: the record's own before-hooks, its belongs-to values, (the
    statement), its has-many values, its own after-hooks *)
+Fixpoint index_of (x : Z) (l : list Z) : Z :=
+  match l with [] => 0 | y :: r => if x =? y then 0 else 1 + index_of x r end.
+
+(* CreateInBatches: batch number of a record (0 for every other operation) *)
+Definition batch_no (o : op) (tag : Z) : Z :=
+  match o_kind o with
+  | OCreateInBatches b => index_of tag (map m_tag (o_recs o)) / Z.max 1 b
+  | _ => 0
+  end.
+
 Definition rank (o : op) (e : hev) : Z :=
   let h := fst (fst e) in let t := snd (fst e) in
-  if t =? ty_id (o_ty o) then (if is_before h then 0 else 7)
+  if t =? ty_id (o_ty o) then 8 * batch_no o (snd e) + (if is_before h then 0 else 7)
   else if t =? ty_id (boss_ty o) then (if is_before h then 1 else 2)
   else if t =? ty_id (kid_ty o) then (if is_before h then 3 else 4)
   else if t =? ty_id (pet_ty o) then (if is_before h then 5 else 6)
@@ -206,7 +217,8 @@ Definition spec_holds (c : case) : bool :=
       else
         (* documented order: phases in order, around the statement of their table *)
         nondecreasing (map (rank o) hs)
-        && bracket_ok (ty_id (o_ty o)) TRecs false (ob_tr c)
+        && (match o_kind o with OCreateInBatches _ => true   (* one statement per batch: the ranks order the batches *)
+            | _ => bracket_ok (ty_id (o_ty o)) TRecs false (ob_tr c) end)
         && bracket_ok (ty_id (boss_ty o)) TBosses false (ob_tr c)
         && bracket_ok (ty_id (kid_ty o)) TKids false (ob_tr c)
         && bracket_ok (ty_id (pet_ty o)) TPets false (ob_tr c)
